@@ -149,7 +149,11 @@ func (c *compiler) write(bb *strings.Builder, i interface{}) {
 func printedNow(v interface{}) interface{} {
 	switch t := v.(type) {
 	case []interface{}:
-		return append([]interface{}(nil), t...)
+		cp := make([]interface{}, len(t))
+		for i, e := range t {
+			cp[i] = printedNow(e) // lists inside the list can be modified later as well
+		}
+		return cp
 	case []string:
 		return append([]string(nil), t...)
 	}
